@@ -169,6 +169,7 @@ func c02Evaluate(ctx *vkit.Ctx, cs *vkit.Case, dir, what string, cands []*vexec.
 			break
 		}
 	}
+	preRewrite := c13DumpLog(dir)
 	if err := e.RewriteAOF(); err != nil {
 		cs.Fail("%s: RewriteAOF after recovery failed: %v", what, err)
 	}
@@ -182,6 +183,8 @@ func c02Evaluate(ctx *vkit.Ctx, cs *vkit.Case, dir, what string, cands []*vexec.
 	obs6 := vexec.Observe(e, u)
 	if d := vexec.Diff(obs5, obs6); len(d) > 0 {
 		cs.Attach("diff", d)
+		cs.Attach("log_records", c13DumpLog(dir))
+		cs.Attach("log_records_before_compaction", preRewrite)
 		cs.Fail("%s: deletions + compaction after recovery did not survive a restart unchanged: %s", what, d[0])
 	}
 	e.Close()
